@@ -265,16 +265,16 @@ Section RL.
       + (* whole list deleted *)
         unfold ldelete. rewrite E. fold llen. destruct (llen =? 0); cbn [fst]; [exact Rm|].
         constructor; cbn [l_meta l_elems].
-        * destruct compact; [apply (rl_nodup _ _ R)|]. unfold ldrop_range.
+        * destruct (lazy_clear compact ts (l_ver l)); [apply (rl_nodup _ _ R)|]. unfold ldrop_range.
           apply (nodup_kfilter (fun k : skey => negb ((fst k =? lm_ver m) && (lm_head m <=? snd k) && (snd k <=? lm_tail m)))), (rl_nodup _ _ R).
         * discriminate.
-        * intros _ C. rewrite C. unfold ldrop_range. apply filter_nil. intros e He.
+        * intros _ C. rewrite C. unfold lazy_clear. cbn [andb]. unfold ldrop_range. apply filter_nil. intros e He.
           pose proof (rl_vers _ _ R e He) as Hv'. unfold ver_ok in *. rewrite C in *. unfold skey in *.
           assert (H : fst (fst e) = lm_ver m) by lia. destruct (conf e He H) as [c1 c2].
           assert (fst (fst e) =? lm_ver m = true) as -> by (apply Z.eqb_eq; exact H).
           assert (lm_head m <=? snd (fst e) = true) as -> by (apply Z.leb_le; exact c1).
           assert (snd (fst e) <=? lm_tail m = true) as -> by (apply Z.leb_le; exact c2). reflexivity.
-        * intros e He. apply (rl_vers _ _ Rm e). destruct compact; [exact He|]. unfold ldrop_range in He. apply filter_In in He; tauto.
+        * intros e He. apply (rl_vers _ _ Rm e). destruct (lazy_clear compact ts (l_ver l)); [exact He|]. unfold ldrop_range in He. apply filter_In in He; tauto.
       + set (stop2 := if llen <=? stop1 then llen - 1 else stop1).
         unfold lset_meta. rewrite Hh.
         assert (lm_head m + stop2 - (lm_head m + start2) + 1 <? 0 = false) as -> by (unfold stop2; destruct (llen <=? stop1) eqn:Q; lia).
@@ -301,15 +301,15 @@ Section RL.
       destruct (rl_meta _ _ Rm m E) as (hle & vk & pres & conf).
       destruct (l_size l =? 0); cbn [fst]; [exact Rm|].
       constructor; cbn [l_meta l_elems].
-      + destruct compact; [apply (rl_nodup _ _ R)|]. unfold ldrop_range.
+      + destruct (lazy_clear compact ts (l_ver l)); [apply (rl_nodup _ _ R)|]. unfold ldrop_range.
         apply (nodup_kfilter (fun k : skey => negb ((fst k =? lm_ver m) && (lm_head m <=? snd k) && (snd k <=? lm_tail m)))), (rl_nodup _ _ R).
       + discriminate.
-      + intros _ C. rewrite C. unfold ldrop_range. apply filter_nil. intros e He.
+      + intros _ C. rewrite C. unfold lazy_clear. cbn [andb]. unfold ldrop_range. apply filter_nil. intros e He.
         pose proof (rl_vers _ _ R e He) as Hv'. unfold ver_ok in *. rewrite C in *. unfold skey in *.
         assert (H : fst (fst e) = lm_ver m) by lia. destruct (conf e He H) as [c1 c2].
           assert (fst (fst e) =? lm_ver m = true) as -> by (apply Z.eqb_eq; exact H).
           assert (lm_head m <=? snd (fst e) = true) as -> by (apply Z.leb_le; exact c1).
           assert (snd (fst e) <=? lm_tail m = true) as -> by (apply Z.leb_le; exact c2). reflexivity.
-      + intros e He. apply (rl_vers _ _ Rm e). destruct compact; [exact He|]. unfold ldrop_range in He. apply filter_In in He; tauto.
+      + intros e He. apply (rl_vers _ _ Rm e). destruct (lazy_clear compact ts (l_ver l)); [exact He|]. unfold ldrop_range in He. apply filter_In in He; tauto.
   Qed.
 End RL.
